@@ -85,6 +85,8 @@ func xCoqVal(v reflect.Value) string {
 		return fmt.Sprint(v.Uint())
 	case reflect.Bool:
 		return fmt.Sprint(v.Bool())
+	case reflect.Interface: // an error: nil or not
+		return fmt.Sprint(!v.IsNil())
 	case reflect.String:
 		return xBytesLit(v.String())
 	case reflect.Slice:
@@ -126,6 +128,127 @@ func xCallSample(f reflect.Value, args []reflect.Value) (res string) {
 	return "Return " + xTuple(f.Call(args))
 }
 
+// state-mode samples: methods of xlatesample.R, run on readers over several byte strings at several positions
+var sampleReader = &xStateSpec{
+	Type:   "go_reader",
+	Fields: map[string]xStField{"b.depth": {"rd_depth", "go_rd_set_depth"}, "b.ref": {"rd_ref", ""}},
+	Pure:   map[string]string{"b.buf.Len": "go_rd_len"},
+	Prims:  codecReader.Prims,
+	Errs:   map[string]bool{"fmt.Errorf": true},
+	Calls:  map[string]string{"b.Nest": "tr_s_Nest", "b.Walk": "tr_s_Walk", "b.Deeper": "tr_s_Deeper"},
+}
+var xRdSamples = []struct {
+	name  string
+	fuel  bool
+	group string
+}{{"Head", false, ""}, {"Unread", false, ""}, {"Jump", false, ""}, {"Left", false, ""}, {"U8", false, ""}, {"U16", false, ""},
+	{"U32", false, ""}, {"U64", false, ""}, {"Full", false, ""}, {"Read", false, ""}, {"Nest", false, ""},
+	{"Walk", true, "walk"}, {"Deeper", true, "walk"}}
+
+var xRdRefs = [][]byte{nil, {7}, {0xf3, 0x10, 9}, {0xfc}, {0x1c, 0xf0}, {1, 2, 3, 4, 5, 6, 7, 8, 9},
+	{3, 1, 2, 2, 1, 9, 9, 0, 5}, {1, 1, 1, 1, 0}, {1, 3, 0xff, 0xfe, 0, 2, 200, 0}, {1, 2, 0, 0, 3, 0}, {2, 1, 7, 1, 0, 0, 4}}
+
+func xRdCases(name string) (terms, outs []string) {
+	probe := reflect.ValueOf(xlatesample.NewR(nil, 0, 0)).MethodByName(name)
+	mt := probe.Type()
+	fuel := ""
+	for _, s := range xRdSamples {
+		if s.name == name && s.fuel {
+			fuel = " 40"
+		}
+	}
+	// argument grids: the pointee for a pointer parameter; none for a function parameter (Nest is run on Deeper)
+	var grids [][]reflect.Value
+	for i := 0; i < mt.NumIn(); i++ {
+		t := mt.In(i)
+		switch t.Kind() {
+		case reflect.Ptr:
+			g := xGrid(t.Elem())
+			if len(g) > 3 {
+				g = []reflect.Value{g[0], g[len(g)/2], g[len(g)-1]}
+			}
+			grids = append(grids, g)
+		case reflect.Func:
+			grids = append(grids, []reflect.Value{reflect.Zero(t)})
+		default:
+			grids = append(grids, xGrid(t))
+		}
+	}
+	n := 1
+	for _, g := range grids {
+		n *= len(g)
+	}
+	for _, ref := range xRdRefs {
+		for _, pos := range []int64{0, 1, 2, int64(len(ref)), int64(len(ref)) + 3} {
+			for _, depth := range []int{0, 2, 3} {
+				if pos > int64(len(ref))+3 || (name != "Nest" && name != "Walk" && name != "Deeper" && depth != 0) {
+					continue
+				}
+				for k := 0; k < n; k++ {
+					r := xlatesample.NewR(ref, pos, depth)
+					m := reflect.ValueOf(r).MethodByName(name)
+					args := make([]reflect.Value, len(grids))
+					var as []string
+					var ptrs []reflect.Value
+					for i, q := 0, k; i < len(grids); i++ {
+						v := grids[i][q%len(grids[i])]
+						q /= len(grids[i])
+						switch mt.In(i).Kind() {
+						case reflect.Ptr:
+							pv := reflect.New(mt.In(i).Elem())
+							pv.Elem().Set(v)
+							args[i] = pv
+							ptrs = append(ptrs, pv)
+							as = append(as, xCoqVal(v))
+						case reflect.Func:
+							args[i] = reflect.ValueOf(r.Deeper)
+							as = append(as, "(tr_s_Deeper 40)")
+						default:
+							args[i] = v
+							as = append(as, xCoqVal(v))
+						}
+					}
+					state := func(p int64, d int) string {
+						return fmt.Sprintf("(Build_go_reader %s %d %d)", xBytesLit(string(ref)), p, d)
+					}
+					terms = append(terms, "tr_s_"+name+fuel+" "+strings.Join(append(as, state(pos, depth)), " "))
+					res := func() (out string) {
+						defer func() {
+							if recover() != nil {
+								out = "Panic"
+							}
+						}()
+						rs := m.Call(args)
+						p2, d2 := r.State()
+						parts := []string{state(p2, d2)}
+						for _, pv := range ptrs {
+							parts = append(parts, xCoqVal(pv.Elem()))
+						}
+						for _, v := range rs {
+							parts = append(parts, xCoqVal(v))
+						}
+						if len(parts) == 1 {
+							return "Return " + parts[0]
+						}
+						return "Return (" + strings.Join(parts, ", ") + ")"
+					}()
+					outs = append(outs, res)
+				}
+			}
+		}
+	}
+	if step := (len(terms) + 299) / 300; step > 1 { // a deterministic sample of at most 300 cases per method
+		var t2, o2 []string
+		for i := range terms {
+			if i%step == 0 {
+				t2, o2 = append(t2, terms[i]), append(o2, outs[i])
+			}
+		}
+		terms, outs = t2, o2
+	}
+	return
+}
+
 func init() {
 	props["gen-xlate-selftest"] = func(a Args) {
 		root := os.Getenv("VERIF_HARNESS_SRC")
@@ -135,6 +258,9 @@ func init() {
 		var units []xUnit
 		for _, s := range xSamples {
 			units = append(units, xUnit{Name: "tr_s_" + s.name, Dir: "xlatesample", Func: s.name})
+		}
+		for _, s := range xRdSamples {
+			units = append(units, xUnit{Name: "tr_s_" + s.name, Dir: "xlatesample", Func: "R." + s.name, State: sampleReader, Fuel: s.fuel, Group: s.group})
 		}
 		defs, errs := xlateUnits(root, units)
 		fmt.Println("(* GENERATED by `harness gen-xlate-selftest` on every run - do not edit. The functions of harness/xlatesample")
@@ -171,6 +297,11 @@ func init() {
 			total += n
 			fmt.Printf("\nExample selftest_%s :\n  [%s]\n  = [%s].\nProof. vm_compute. reflexivity. Qed.\n", s.name, strings.Join(ins, ";\n   "), strings.Join(outs, ";\n     "))
 		}
-		fmt.Printf("\n(* %d evaluations of %d sample functions *)\n", total, len(xSamples))
+		for _, s := range xRdSamples {
+			ins, outs := xRdCases(s.name)
+			total += len(ins)
+			fmt.Printf("\nExample selftest_R_%s :\n  [%s]\n  = [%s].\nProof. vm_compute. reflexivity. Qed.\n", s.name, strings.Join(ins, ";\n   "), strings.Join(outs, ";\n     "))
+		}
+		fmt.Printf("\n(* %d evaluations of %d sample functions *)\n", total, len(xSamples)+len(xRdSamples))
 	}
 }
